@@ -2,6 +2,7 @@ package checks
 
 import (
 	"fmt"
+	"strings"
 	"testing"
 
 	"pgregory.net/rapid"
@@ -41,6 +42,17 @@ func orderColumn(s *lib.Stmt, name string) (int, lib.Ty, bool) {
 		}
 	}
 	return 0, 0, false
+}
+
+// isNaNValue: a float NaN, or the text NaN of a group column.
+func isNaNValue(v any) bool {
+	switch x := v.(type) {
+	case float64:
+		return x != x
+	case string:
+		return strings.EqualFold(x, "nan") || strings.EqualFold(x, "+nan") || strings.EqualFold(x, "-nan")
+	}
+	return false
 }
 
 func cmpByType(ty lib.Ty, a, b any) (int, bool) {
@@ -132,21 +144,42 @@ func checkC07(c *c07Case) (msg string, nontrivial bool, labels []string) {
 		if !lib.SameMultiset(o.Rows, u.Rows) {
 			return fmt.Sprintf("statement %q over %v [%s] is not a permutation of its un-ordered result:\n  un-ordered %s\n  ordered    %s", q, c.Pairs, cfg, lib.ShowRows(u.Rows), lib.ShowRows(o.Rows)), false, labels
 		}
-		// (ii) every adjacent pair is in non-decreasing order
+		// (ii) every adjacent pair is in non-decreasing order. NaN is not
+		// ordered with any number: rows with a NaN order key may stand
+		// anywhere, the other rows must be sorted among themselves
+		sorted := o.Rows
+		if hasNaNKey := func(r []any) bool {
+			for _, cl := range cols {
+				if cl.idx < len(r) && (cl.ty == lib.TyInt || cl.ty == lib.TyFloat) && isNaNValue(r[cl.idx]) {
+					return true
+				}
+			}
+			return false
+		}; true {
+			sorted = nil
+			for _, r := range o.Rows {
+				if !hasNaNKey(r) {
+					sorted = append(sorted, r)
+				}
+			}
+			if len(sorted) != len(o.Rows) {
+				labels = append(labels, "nan-order-key")
+			}
+		}
 		strict, tieFirst := false, false
-		for i := 0; i+1 < len(o.Rows); i++ {
-			r, err := cmpRows(o.Rows[i], o.Rows[i+1])
+		for i := 0; i+1 < len(sorted); i++ {
+			r, err := cmpRows(sorted[i], sorted[i+1])
 			if err != nil {
 				return fmt.Sprintf("statement %q [%s]: %v", q, cfg, err), false, labels
 			}
 			if r > 0 {
-				return fmt.Sprintf("statement %q over %v [%s]: rows %d and %d are out of order:\n  %s\n  %s\n  full result %s", q, c.Pairs, cfg, i, i+1, lib.ShowRow(o.Rows[i]), lib.ShowRow(o.Rows[i+1]), lib.ShowRows(o.Rows)), false, labels
+				return fmt.Sprintf("statement %q over %v [%s]: rows %d and %d are out of order:\n  %s\n  %s\n  full result %s", q, c.Pairs, cfg, i, i+1, lib.ShowRow(sorted[i]), lib.ShowRow(sorted[i+1]), lib.ShowRows(o.Rows)), false, labels
 			}
 			if r < 0 {
 				strict = true
 			}
 			if len(cols) > 1 {
-				if f, ok := cmpByType(cols[0].ty, o.Rows[i][cols[0].idx], o.Rows[i+1][cols[0].idx]); ok && f == 0 {
+				if f, ok := cmpByType(cols[0].ty, sorted[i][cols[0].idx], sorted[i+1][cols[0].idx]); ok && f == 0 {
 					tieFirst = true
 				}
 			}
@@ -172,6 +205,12 @@ func TestC07(t *testing.T) {
 			kind = lib.KFloat // integer and float texts mixed: aggregates change kind between groups
 		}
 		pairs := lib.GenStore(rt, kind, lib.GenStoreSize(rt))
+		if kind == lib.KFloat && len(pairs) > 2 && rapid.IntRange(0, 2).Draw(rt, "nanValues") == 0 {
+			// float(value) of the text NaN is NaN: not ordered with any number
+			for i := rapid.IntRange(1, 3).Draw(rt, "nNaN"); i > 0; i-- {
+				pairs[rapid.IntRange(0, len(pairs)-1).Draw(rt, "nanAt")].V = "NaN"
+			}
+		}
 		var st *lib.Stmt
 		for try := 0; ; try++ {
 			st = lib.GenSelect(rt, kind, pairs, lib.SelOpts{Aliases: true, Aggregate: 1, MinFields: 1, MixedNumeric: true})
